@@ -453,7 +453,7 @@ def c15_engine(prop, tier, seed):
     vlib.prune_cache()
     rng = random.Random(seed * 977 + 3)
     T = TIERS[tier]
-    nshape = 2 if tier == 'quick' else 8
+    nshape = 4 if tier == 'quick' else 8
     families = [
         dict(name='core', fixed=(), profile='c15-core', strategies=['Composite', 'Resumable', 'Selectable']),
         dict(name='utility', fixed=('UTILITY_THEORY',), profile='c15-utility', strategies=shp.STRATS),
@@ -461,10 +461,13 @@ def c15_engine(prop, tier, seed):
     jobs = []; meta = {}
     for fam in families:
         shapes_ = []
+        fixed = ['k_ortho_root', 'k_ortho_leafs', 'k_deep', 'k_ortho_wide9'] if fam['name'] == 'core' else ['k_util_ortho', 'k_compo_all', 'k_select_nested']
         for i in range(nshape):
-            spec = shp.rand_spec(rng, depth=3, max_width=3, strategies=fam['strategies'], min_states=5, max_states=22)
-            cfg = dict(shp.DEFAULT_CFG); cfg['manual'] = i % 2; cfg['bottomup'] = (i // 2) % 2
-            shapes_.append(shp.shape_json('c15%s%d_%d' % (fam['name'][0], seed, i), spec, cfg))
+            # every (activation, reaction order) combination appears among the first four programs
+            cfg = dict(shp.DEFAULT_CFG); cfg['manual'] = i % 2; cfg['bottomup'] = ((i + 1) // 2) % 2
+            if i < len(fixed) and (i % 2 == 0 or tier == 'thorough'): spec = shp.CURATED[fixed[i]]; nm = 'c15%s_%s' % (fam['name'][0], fixed[i])
+            else: spec = shp.rand_spec(rng, depth=3, max_width=3, strategies=fam['strategies'], min_states=5, max_states=22); nm = 'c15%s%d_%d' % (fam['name'][0], seed, i)
+            shapes_.append(shp.shape_json(nm, spec, cfg))
         configs = c15_configs(tier if len(shapes_) <= 2 or tier == 'quick' else 'quick', rng, fam['fixed'])
         if tier == 'thorough': configs_full = c15_configs('thorough', rng, fam['fixed'])
         for si, sj in enumerate(shapes_):
@@ -576,6 +579,8 @@ def id_engine(prop, tier, seed):
                 if not (n['kind'] != 'L' and n['headless']):
                     values += 1
                     if nm != '%dN%d' % (len('N%d' % i), i): bad('structure|order-differs-from-identifier-order', {'index': i, 'name': nm}); break
+        values += d.get('probes', 0)
+        if d.get('probe_fail'): bad('structure|state-not-reachable-by-its-identifier', {'failed-probes': d['probe_fail'], 'probes': d['probes'], 'shape': sj['desc'][:200]})
         if d.get('asserts'): V.add_other('C11', 'assert|during-construction', d['asserts'])
         distinct.add(sj['desc'])
         if len(samples) < 3: samples.append({'shape': sj['name'], 'desc': sj['desc'][:300], 'flavour': fl, 'published': {k: d[k] for k in ('STATE_COUNT', 'REGION_COUNT', 'COMPO_COUNT', 'ORTHO_COUNT', 'ORTHO_UNITS', 'TASK_CAPACITY', 'SERIAL_BITS', 'SERIAL_BYTES')}, 'expected': exp})
